@@ -1,9 +1,17 @@
 package oper
 
+import "math"
+
 // BP BindingPower, Precedence
 // 这里使用 float 是因为可以更精细定义自定义操作符的优先级
 // e.g. 如果需要区分前后缀操作符优先级, 可以自己调整
 type BP float32
+
+// Below is the largest binding power strictly below bp: the right operand of a
+// right-associative operator is parsed with it, so that it takes every operator
+// binding at least as tightly as bp and none that binds more loosely (bp-1 would
+// also swallow operators whose power lies between bp-1 and bp, e.g. 2.5 under 3)
+func (bp BP) Below() BP { return BP(math.Nextafter32(float32(bp), float32(math.Inf(-1)))) }
 
 //goland:noinspection GoSnakeCaseUsage
 const (
